@@ -26,6 +26,15 @@ Definition pkgvars_written : list (string * string) :=
    ("packet.stpCount@-",            "802.3 STP log throttle: packet loop only");
    ("packet.stpNextLog@-",          "same")].
 
+(* runtime-settable switches: the package-level loggers (atomic level: Disable / EnableInfo / EnableDebug / SetLevel
+   at any time; the @toggle mixes flip the exported ones while the pattern runs) and exported boolean variables
+   (dns_naming.Debug is a plain bool: the caller must set it before the handlers run) *)
+Definition switches_known : list string :=
+  ["packet.Logger:logger"; "arp_spoofer.Logger:logger"; "icmp_spoofer.Logger6:logger"; "icmp_spoofer.Logger4:logger";
+   "dhcp4_spoofer.Logger:logger"; "dns_naming.Logger:logger"; "dns_naming.LoggerMDNS:logger";
+   "dns_naming.ssdpLogger:logger"; "dns_naming.Debug:bool"].
+Definition census_switches : string := show_set switches_known.
+
 Definition census_balance : string := show_set balance_exceptions.
 Definition census_blocking : string := show_set blocking_under_lock.
 Definition census_pkgvars : string := show_set (map fst pkgvars_written).
